@@ -183,16 +183,26 @@ def granular(chk, rng, quick):
                                                         "impl": None if out is None else list(out)}, False)
     # D. _add_procedure_calls on statements whose AST is known: model AND Spec (references of the statement)
     scases = []
-    for text, st in stmts:
+    # in every run: references to functions spelled like INTRINSICS entries in statements that begin with a longer name
+    forced = []
+    for fn in G.INTRINSIC_NAMED_PROCS:
+        for nargs in (0, 1, 2):
+            for st, _ in G.prefix_statements(fn, nargs):
+                for p_case in (0.0, 0.5):
+                    st_ = G.recase_stmt(rng, st, p_case) if p_case else st
+                    forced.append((G.r_stmt(st_), st_))
+    for text, st in forced + stmts:
         if st[0] in ("endassoc", "format", "goto"):
             continue       # not handed to the method as they stand
         line = I.mask(text)
         prev = rng.choice(prev_pool)
-        scases.append((prev, st, line, I.add_calls([], prev, line)))
+        scases.append((prev, st, line, I.add_calls2([], prev, [], line)))
         chk.count(("adds", str(prev), line), nontrivial="(" in line)
-    terms = [f"({coq_list(c_chain(c) for c in prev)}, {G.c_stmt(st)}, {cstr(line)}, "
-             f"{coq_opt(out, lambda o: coq_list(c_chain(c) for c in o))})" for prev, st, line, out in scases]
-    res = chk.coq_judge(IMPORTS, "list chain * stmt * str * option (list chain)", "judge_add_stmt", terms, shard=60)
+    pair = lambda o: f"({coq_list(c_chain(c) for c in o[0])}, {coq_list(c_chain(c) for c in o[1])})"
+    terms = [f"({coq_list(c_chain(c) for c in prev)}, {G.c_stmt(st)}, {cstr(line)}, {coq_opt(out, pair)})"
+             for prev, st, line, out in scases]
+    res = chk.coq_judge(IMPORTS, "list chain * stmt * str * option (list chain * list chain)", "judge_add_stmt", terms,
+                        shard=60)
     if res is not None:
         chk.traces += len(scases)
         spec = [i for i in sorted(res) if res[i] & 2]
@@ -202,10 +212,12 @@ def granular(chk, rng, quick):
                 chk.disagreements += 1
                 chk.violation("failing-input", {"what": "_add_procedure_calls: the chains recorded for the statement differ from "
                                                         "its references (missing, extra or repeated)", "line": line,
-                                                "batches": [], "earlier": prev, "impl": out}, True)
+                                                "batches": [], "earlier": prev, "candidates": [],
+                                                "impl": None if out is None else list(out)}, True)
             else:
                 chk.violation("broken-correspondence", {"what": "_add_procedure_calls vs model (statement with AST)",
-                                                        "line": line, "batches": [], "earlier": prev, "impl": out}, False)
+                                                        "line": line, "batches": [], "earlier": prev, "candidates": [],
+                                                        "impl": None if out is None else list(out)}, False)
     chk.extra["granular"] = {"regex_strings": len(xs), "strip_cases": len(cs), "add_cases": len(acases),
                              "add_cases_with_ast": len(scases)}
 
@@ -214,7 +226,11 @@ def granular(chk, rng, quick):
 
 KNOB_SETS = [{}, {}, {}, {"shadow": True}, {"unknown_array": True}, {"intrinsic_named": True},
              {"labelled_bare_call": True, "p_label": 0.3}, {"format_nospace": True}, {"assoc_expr": True},
-             {"goto_expr": True}, {"shadow": True, "p_label": 0.2}, {"intrinsic_named": True, "shadow": True, "p_label": 0.1}]
+             {"goto_expr": True}, {"shadow": True, "p_label": 0.2}, {"intrinsic_named": True, "shadow": True, "p_label": 0.1},
+             {"intrinsic_named": True, "prefix_stmt": 0.35}]
+# in every run: projects in which the only reference of a unit to a function spelled like an INTRINSICS entry stands
+# in a statement that begins with a longer name (`rank_local = rank(1)`, `10 time_v = time()`, ...)
+FORCED_KNOBS = [{"intrinsic_named": True, "prefix_stmt": 1.0, "p_case": 0.0}, {"intrinsic_named": True, "prefix_stmt": 1.0}]
 
 
 def unit_term(tb_ford, tb_true, srcs, impl, asts, strict=True):
@@ -277,10 +293,11 @@ def respace(rng, text):
 
 def end_to_end(chk, rng, nproj):
     cases = []
-    stats = {"projects": 0, "units": 0, "ford_errors": 0, "stmts": 0, "respaced_projects": 0, "lower_projects": 0}
+    stats = {"projects": 0, "units": 0, "ford_errors": 0, "stmts": 0, "respaced_projects": 0, "lower_projects": 0,
+             "prefix_stmt_units": 0}
     kinds = {}
-    for k in range(nproj):
-        knobs = dict(rng.choice(KNOB_SETS))
+    for k in range(nproj + len(FORCED_KNOBS)):
+        knobs = dict(FORCED_KNOBS[k] if k < len(FORCED_KNOBS) else rng.choice(KNOB_SETS))
         proj = G.gen_project(rng, knobs)
         strict = rng.random() < 0.7
         if not strict:     # blanks and letter case Fortran ignores, keywords included
@@ -312,6 +329,7 @@ def end_to_end(chk, rng, nproj):
             cases.append((path, tb_ford, tb_true, srcs, r["calls"], asts, files,
                           {k: v for k, v in knobs.items() if k != "respace"}, strict))
             stats["units"] += 1
+            stats["prefix_stmt_units"] += bool(unit.get("prefix_stmt"))
             stats["stmts"] += len(srcs)
             for s_ in asts:
                 k_ = s_[3][0] if s_[0] == "form" else s_[0]
